@@ -295,6 +295,51 @@ void run_program(const Program& p, int repeat, bool via_runner) {
     if (vf::want_sample()) vf::sample(desc + (via_runner ? " via runner" : " via registry"));
 }
 
+// Separate-process mode (-p): every test runs in a forked child, so statements and failure texts stay in the child; what
+// C01 still says about such a run is its verdict: runner value and summary head per repetition, and one recorded failure
+// per test that has at least one failure (the child's exit status). C11 owns everything else about that mode.
+void run_program_sepproc(const Program& p, int repeat) {
+    std::string desc = render(p) + vf::fmt("x%d -p", repeat);
+    vf::ctx("runner-p");
+    bool any_rep_fails = false; std::vector<size_t> failing_tests(repeat, 0); std::vector<bool> rep_fails(repeat, false);
+    for (int r = 0; r < repeat; r++) {
+        Ref whole = reference(p, r); rep_fails[r] = whole.failure(); any_rep_fails |= whole.failure();
+        for (size_t t = 0; t < p.tests.size(); t++) {
+            Program one; one.tests.push_back(p.tests[t]); one.run_ignored = p.run_ignored; one.plugin_error = p.plugin_error;
+            Ref rt = reference(one, r);
+            if (rt.failures) failing_tests[r]++;
+        }
+    }
+    WatchPlugin plugin; plugin.report_error = p.plugin_error;
+    TestRegistry reg; build_registry(p, reg); reg.installPlugin(&plugin);
+    g_console.clear();
+    std::vector<const char*> av = {"prog", "-e", "-p", "-xn", "skipme"};
+    std::string rarg = vf::fmt("-r%d", repeat); if (repeat > 1) av.push_back(rarg.c_str());
+    if (p.run_ignored) av.push_back("-ri");
+    int rv;
+    fflush(stdout); fflush(stderr);
+    { CommandLineTestRunner runner((int)av.size(), av.data(), &reg); rv = runner.runAllTestsMain(); }
+    UtestShell::setRethrowExceptions(false);
+    if ((rv == 0) != !any_rep_fails) vf::fail(rv == 0 ? "runner-p/returns-zero-despite-failure" : "runner-p/returns-nonzero-without-failure", desc + vf::fmt(": runner returned %d, reference: some repetition fails=%d", rv, any_rep_fails));
+    size_t from = 0;
+    for (int r = 0; r < repeat; r++) {
+        size_t ok = g_console.find("\nOK (", from), er = g_console.find("\nErrors (", from);
+        size_t at = std::min(ok, er);
+        if (at == std::string::npos) { vf::fail("runner-p/summary-missing", desc + vf::fmt(": no summary for repetition %d", r + 1)); break; }
+        bool says_ok = at == ok;
+        if (says_ok == rep_fails[r]) vf::fail(says_ok ? "runner-p/summary-OK-despite-failure" : "runner-p/summary-Errors-without-failure", desc + vf::fmt(": repetition %d summary reads %s, reference fails=%d", r + 1, says_ok ? "OK" : "Errors", (int)rep_fails[r]));
+        if (!says_ok && failing_tests[r]) {
+            std::string want = vf::fmt("Errors (%zu failures", failing_tests[r]);
+            if (g_console.compare(at + 1, want.size(), want) != 0) vf::fail("runner-p/failure-count", desc + vf::fmt(": repetition %d: expected '%s', printed '%s'", r + 1, want.c_str(), g_console.substr(at + 1, 24).c_str()));
+        }
+        from = at + 5;
+    }
+    destroy_shells(p);
+    vf::outcome(vf::fmt("-p failing-tests=%zu %s", failing_tests[0] > 2 ? 2 : failing_tests[0], any_rep_fails ? "Errors" : "OK"));
+    if (any_rep_fails) vf::count("nontrivial");
+    if (vf::want_sample()) vf::sample(desc);
+}
+
 void kind_from(long k, int out[3]) { out[0] = (int)(k % NK); out[1] = (int)((k / NK) % NK); out[2] = (int)(k / NK / NK); }
 
 } // namespace
@@ -315,6 +360,25 @@ int main(int argc, char** argv) {
         run_program(p, rep, runner);
     });
     vf::require_outcomes("single", 4);
+
+    vf::info("sepproc.bound", vf::fmt("separate-process mode: all %ld test kinds x repeat {1,2} x plugin-reported error {no,yes}, and all ordered pairs of kinds with at most one failing phase; runner with -p, real fork; verdict-level comparison", K3));
+    {
+        std::vector<long> few; for (long k = 0; k < K3; k++) { int kk[3]; kind_from(k, kk); int nf = 0; for (int i = 0; i < 3; i++) if (kk[i] != 0) nf++; if (nf <= 1) few.push_back(k); }
+        long F = (long)few.size();
+        vf::section_index("sepproc", K3 * 2 * 2 + F * F, [&](long idx) {
+            Program p;
+            if (idx < K3 * 2 * 2) {
+                vf::Radix r(idx); long k = r.take(K3); int rep = 1 + (int)r.take(2); bool perr = r.take(2);
+                TestSpec t{}; kind_from(k, t.kind); p.tests.push_back(t); p.plugin_error = perr;
+                run_program_sepproc(p, rep);
+            } else {
+                vf::Radix r(idx - K3 * 2 * 2);
+                for (int i = 0; i < 2; i++) { TestSpec t{}; kind_from(few[r.take(F)], t.kind); p.tests.push_back(t); }
+                run_program_sepproc(p, 1);
+            }
+        });
+        vf::require_outcomes("sepproc", 3);
+    }
 
     vf::info("pairs.bound", vf::fmt("all %ld ordered pairs of test kinds, registry, repeat 1", K3 * K3));
     vf::section_index("pairs", K3 * K3, [&](long idx) {
